@@ -32,6 +32,8 @@ EVI = 'tendermint::abci::types::ExtendedVoteInfo'
 def ve_hooks():
     def h_siginfo_eq(ctx):
         a, b = (ctx.ex.deref_val(ctx.st, x) for x in ctx.args[:2])
+        if isinstance(a, Obj) and isinstance(b, Obj) and 'code' in a.attrs and 'code' in b.attrs:
+            return [(None, a.attrs['code'] == b.attrs['code'])]
         lazy, const = (a, b) if 'commit' in a.attrs else (b, a)
         flag = const.fields.get(('Flag', 0)) if isinstance(const, Obj) else None
         name = (flag.discr if isinstance(flag, Obj) else None) or (flag.attrs.get('const', '') if isinstance(flag, Obj) else '')
@@ -127,6 +129,122 @@ def c15_2(run):
                       z3.And(distinct, total != 0, z3.UGT(submitted * 3, total * 2)))
             run.prove(f'accepted => every commit vote carries a signature that verifies under the stored key of that validator over the canonical extension of (height-1, round, chain id); other votes carry nothing {lab}',
                       p.pc, z3.And(*per) if per else z3.BoolVal(True))
+    if not n_ok:
+        raise Inconclusive('vacuity: no accepting path')
+    run.require_reached(*run.cur.reach)
+
+
+# ----------------------------------------------------------------------------------------------------------------- C15-3
+SIG_CODES = {'LegacySigned': 0, 'Flag(Absent)': 1, 'Flag(Commit)': 2, 'Flag(Nil)': 3}
+
+
+def mk_siginfo(tag):
+    code = z3.BitVec(f'{tag}_sig_info', 8)
+    si = Obj('tendermint::abci::types::BlockSignatureInfo'); si.attrs['code'] = code
+    si.attrs['commit'] = code == SIG_CODES['Flag(Commit)']; si.attrs['absent'] = code == SIG_CODES['Flag(Absent)']
+    return si, code
+
+
+@obligation('C15', 'C15-3 validate_extended_commit_against_last_commit: accepted iff round, length and every vote (address, power, block-id flag unless wholly absent) match the last commit')
+def c15_3(run):
+    ex, W = A.engine(extra_hooks=ve_hooks())
+    f = ex.find(r'^(app::vote_extension::)?validate_extended_commit_against_last_commit$')
+    pairs = [(0, 0), (1, 1), (2, 2), (1, 2), (2, 1), (0, 1), (3, 3)] if run.tier == 'thorough' else [(0, 0), (1, 1), (2, 2), (1, 2), (2, 1), (0, 1)]
+    run.bound(votes=f'(last commit votes, extended commit votes) in {pairs}; arbitrary rounds, addresses, powers, block-id flags, extensions, signatures', sig_info='a scalar code per BlockSignatureInfo value (LegacySigned, Flag(Absent|Commit|Nil)); equality of two values = equality of codes')
+    n_ok = n_err = 0
+    for nl, ne in pairs:
+        lvotes = []
+        for i in range(nl):
+            si, code = mk_siginfo(f'last{i}')
+            addr, power = z3.BitVec(f'last{i}_address', 160), z3.BitVec(f'last{i}_power', 64)
+            lvotes.append((B.struct(ex, 'tendermint::abci::types::VoteInfo', validator=B.struct(ex, 'tendermint::abci::types::Validator', address=addr, power=power), sig_info=si), dict(addr=addr, power=power, code=code)))
+        evotes = []
+        for i in range(ne):
+            v, m = mk_vote(ex, i)
+            si, code = mk_siginfo(f'ext{i}')
+            a = ex.adts.lookup(EVI); v.fields[(None, a['fields'].index('sig_info'))] = si
+            m = dict(m, code=code); evotes.append((v, m))
+        lr, er = z3.BitVec('last_round', 32), z3.BitVec('ext_round', 32)
+        last = B.struct(ex, 'tendermint::abci::types::CommitInfo', round=lr, votes=M.new_vec('Vec<VoteInfo>', [v for v, _ in lvotes]))
+        eci = B.struct(ex, 'tendermint::abci::types::ExtendedCommitInfo', round=er, votes=M.new_vec('Vec<ExtendedVoteInfo>', [v for v, _ in evotes]))
+        st = ex.start(f, [B.cell(last), B.cell(eci)])
+        codes = [m['code'] for _, m in lvotes + evotes]
+        st.pc += [z3.ULE(c, 3) for c in codes]
+        match = [lr == er, z3.BoolVal(nl == ne)]
+        for (_, l), (_, e) in zip(lvotes, evotes):
+            wholly_absent = z3.And(e['code'] == SIG_CODES['Flag(Absent)'], e['empty'], z3.Not(e['has_sig']))
+            match += [l['addr'] == e['addr'], l['power'] == e['power'], z3.Or(wholly_absent, l['code'] == e['code'])]
+        for i, p in enumerate(run.explore(ex, st, allow_havoc=(r'^Arguments::|fmt::',))):
+            lab = f'[{nl} last / {ne} extended votes, path {i}]'
+            if p.kind != 'return':
+                run.prove(f'no panic {lab}', p.pc, z3.BoolVal(False), detail=p.info); continue
+            res = p.result.discr
+            run.sample({'last': nl, 'ext': ne, 'path': i, 'result': res})
+            if res == 'Ok':
+                n_ok += 1
+                run.prove(f'accepted => same round, same number of votes, every vote pair agrees on address and power, and on the block-id flag unless the extended vote is wholly absent {lab}', p.pc, z3.And(*match))
+            else:
+                n_err += 1
+                run.prove(f'rejected => some listed mismatch exists (a matching extended commit is never rejected) {lab}', p.pc, z3.Not(z3.And(*match)))
+    if not n_ok or not n_err:
+        raise Inconclusive(f'vacuity: ok paths {n_ok}, err paths {n_err}')
+    run.require_reached(*run.cur.reach)
+
+
+# ----------------------------------------------------------------------------------------------------------------- C15-4
+def oracle_hook(name, is_async, okval=lambda s: ()):
+    def h(ctx):
+        st = ctx.st
+        n = sum(1 for e in st.log if e[0] == 'oracle' and e[1] == name)
+        okv = z3.Bool(f'{name}_ok_{n}')
+        st.log.append(('oracle', name, okv))
+        alts = [(okv, (lambda s2: ok(okval(s2)))), (z3.Not(okv), (lambda s2: err(Obj('eyre::Report', kind='error'))))]
+        if is_async:
+            return [(None, M.thunk_future(lambda ex, s2, fut: alts))]
+        return alts
+    return h
+
+
+@obligation('C15', 'C15-4 ProposalHandler::validate_proposal: accepted only at height 1, for an empty extended commit of the same round, or when every check passed')
+def c15_4(run):
+    hooks = [(re.compile(r'^(app::vote_extension::)?validate_extended_commit_against_last_commit$'), oracle_hook('against_last_commit', False)),
+             (re.compile(r'^(app::vote_extension::)?validate_vote_extensions(::<.*>)?$'), oracle_hook('vote_extensions', True)),
+             (re.compile(r'^(app::vote_extension::)?verify_vote_extension$'), oracle_hook('verify_vote_extension', False, lambda s: M.new_map('HashSet<u64>', []))),
+             (re.compile(r'^(app::vote_extension::)?validate_id_to_currency_pair_mapping(::<.*>)?$'), oracle_hook('id_mapping', True)),
+             (re.compile(r'get_max_num_currency_pairs(::<.*>)?$'), oracle_hook('max_pairs', True, lambda s: z3.BitVec('max_pairs', 64))),
+             (re.compile(r'^<(bytes::)?Bytes as Clone>::clone$'), lambda ctx: [(None, ctx.ex.deref_val(ctx.st, ctx.args[0]))])]
+    ex, W = A.engine(extra_hooks=ve_hooks() + hooks)
+    f = ex.find(r'vote_extension::<impl at [^>]*>::validate_proposal$')
+    shapes = (0, 1, 2)
+    run.bound(votes=f'extended commits with {shapes} votes', height='all u64', callees='the four validation steps are oracles that may each fail (they are decided in C15-2, C15-3)')
+    n_ok = 0
+    for n in shapes:
+        votes = [mk_vote(ex, i) for i in range(n)]
+        lr, er = z3.BitVec('last_round', 32), z3.BitVec('ext_round', 32)
+        eci = B.struct(ex, 'tendermint::abci::types::ExtendedCommitInfo', round=er, votes=M.new_vec('Vec<ExtendedVoteInfo>', [v for v, _ in votes]))
+        last = B.struct(ex, 'tendermint::abci::types::CommitInfo', round=lr, votes=M.new_vec('Vec<VoteInfo>', []))
+        wrapper = B.struct(ex, 'ExtendedCommitInfoWithCurrencyPairMapping', extended_commit_info=eci, id_to_currency_pair=M.new_map('IndexMap<CurrencyPairId, CurrencyPairInfo>', []))
+        height = z3.BitVec('height', 64)
+        st = ex.start(f, [B.cell(Obj('S', kind='cell')), height, B.cell(last), B.cell(wrapper)], world=dict(initial_world()))
+        for i, p in enumerate(run.explore(ex, st, poll=True, allow_havoc=(r'^Arguments::|fmt::',))):
+            lab = f'[{n} votes, path {i}]'
+            if p.kind != 'return':
+                run.prove(f'no panic {lab}', p.pc, z3.BoolVal(False), detail=p.info); continue
+            kind, r = poll_result(p)
+            orc = {}
+            for e in p.log:
+                if e[0] == 'oracle':
+                    orc.setdefault(e[1], []).append(e[2])
+            run.sample({'votes': n, 'path': i, 'result': kind, 'oracles': {k: len(v) for k, v in orc.items()}})
+            full = z3.And(z3.BoolVal(len(orc.get('against_last_commit', [])) == 1 and len(orc.get('vote_extensions', [])) == 1 and len(orc.get('verify_vote_extension', [])) == n and len(orc.get('id_mapping', [])) == 1),
+                          *[b for k in ('against_last_commit', 'vote_extensions', 'verify_vote_extension', 'id_mapping') for b in orc.get(k, [])])
+            if kind == 'Ok':
+                n_ok += 1
+                run.prove(f'accepted => height 1, or an empty extended commit of the last commit\'s round, or all four validations ran and passed {lab}', p.pc,
+                          z3.Or(height == 1, z3.And(z3.BoolVal(n == 0), lr == er), z3.And(z3.BoolVal(n > 0), full)))
+            else:
+                run.prove(f'rejected => not height 1 and not an empty extended commit of the same round (block production can always continue with an empty commit) {lab}', p.pc,
+                          z3.And(height != 1, z3.Not(z3.And(z3.BoolVal(n == 0), lr == er))))
     if not n_ok:
         raise Inconclusive('vacuity: no accepting path')
     run.require_reached(*run.cur.reach)
